@@ -108,14 +108,17 @@ pub fn any_bool() -> bool {
     replay_state::pop(1)[0] != 0
 }
 
-/// Array of independent symbolic bytes (element by element, so that replay order is stable).
+/// Array of symbolic bytes (a single nondeterministic array value: no loop to unwind).
+#[cfg(kani)]
+#[inline(always)]
 pub fn any_bytes<const N: usize>() -> [u8; N] {
+    kani::any()
+}
+#[cfg(all(verif_replay, not(kani)))]
+pub fn any_bytes<const N: usize>() -> [u8; N] {
+    let v = replay_state::pop(N);
     let mut r = [0u8; N];
-    let mut i = 0;
-    while i < N {
-        r[i] = any_u8();
-        i += 1;
-    }
+    r.copy_from_slice(&v[..N]);
     r
 }
 
@@ -258,5 +261,54 @@ impl ByteReader for NondetReader {
     }
     fn has_more_bytes(&self) -> bool {
         self.budget > 0
+    }
+}
+
+// FIXED-CAPACITY WRITER
+// ================================================================================================
+
+/// A `ByteWriter` over a fixed array: encodings are produced without any heap growth, so that the
+/// encoded length stays a concrete value for the verifier whenever the shape is concrete.
+pub struct ArrayWriter<const N: usize> {
+    pub buf: [u8; N],
+    pub pos: usize,
+}
+
+impl<const N: usize> ArrayWriter<N> {
+    pub fn new() -> Self {
+        Self { buf: [0u8; N], pos: 0 }
+    }
+    pub fn written(&self) -> &[u8] {
+        &self.buf[..self.pos]
+    }
+    fn put(&mut self, bytes: &[u8]) {
+        assert!(self.pos + bytes.len() <= N, "ArrayWriter capacity exceeded");
+        self.buf[self.pos..self.pos + bytes.len()].copy_from_slice(bytes);
+        self.pos += bytes.len();
+    }
+}
+
+#[cfg(feature = "std")]
+impl<const N: usize> std::io::Write for ArrayWriter<N> {
+    fn write(&mut self, bytes: &[u8]) -> std::io::Result<usize> {
+        self.put(bytes);
+        Ok(bytes.len())
+    }
+    fn write_all(&mut self, bytes: &[u8]) -> std::io::Result<()> {
+        self.put(bytes);
+        Ok(())
+    }
+    fn flush(&mut self) -> std::io::Result<()> {
+        Ok(())
+    }
+}
+
+#[cfg(not(feature = "std"))]
+impl<const N: usize> crate::ByteWriter for ArrayWriter<N> {
+    fn write_u8(&mut self, value: u8) {
+        self.put(&[value]);
+    }
+    fn write_bytes(&mut self, values: &[u8]) {
+        self.put(values);
     }
 }
